@@ -1,5 +1,5 @@
 (* C14 / C15 proofs over the regenerated tables. *)
-From GV Require Import Tables.ObsTypes Tables.Lookup Gen.Obs Tables.Enum.
+From GV Require Import Tables.ObsTypes Tables.Lookup Gen.ObsEnum Tables.Enum.
 
 Lemma all_enum_obs_ok : forallb enum_obs_ok obs_enums = true /\ List.length obs_enums = 20%nat.
 Proof. split; vm_compute; reflexivity. Qed.
